@@ -95,11 +95,11 @@ void hnd(coap_resource_t *resource, coap_session_t *session, const coap_pdu_t *r
   coap_pdu_set_code(response, COAP_RESPONSE_CODE_CONTENT);
   uint8_t body[4] = {'S', (uint8_t)ri, (uint8_t)(g->state[(size_t)ri] >> 8), (uint8_t)g->state[(size_t)ri]};
   if (g->big) {
-    uint8_t *big = (uint8_t *)malloc(80);
-    memset(big, 0x2e, 80);
+    uint8_t *big = (uint8_t *)malloc(2500);
+    memset(big, 0x2e, 2500);
     memcpy(big, body, 4);
     g->w.count("probe.block2_notification_bodies");
-    if (!coap_add_data_large_response(resource, session, request, response, query, COAP_MEDIATYPE_APPLICATION_OCTET_STREAM, -1, 0, 80, big,
+    if (!coap_add_data_large_response(resource, session, request, response, query, COAP_MEDIATYPE_APPLICATION_OCTET_STREAM, -1, (uint64_t)(0x1000 + g->state[(size_t)ri] * 8 + ri) /* ETag of this representation */, 2500, big,
                                       [](coap_session_t *, void *p) { free(p); }, big))
       coap_pdu_set_code(response, COAP_RESPONSE_CODE_INTERNAL_ERROR);
     return;
@@ -186,8 +186,8 @@ struct C11 : Property {
     int nres = (int)r.range(1, 3), ncl = (int)r.range(1, 3);
     json resj = json::array();
     for (int i = 0; i < nres; i++) resj.push_back({{"con", r.chance(0.35)}});
-    // "notifications larger than one block": the representation is 80 bytes served through coap_add_data_large_response() with a
-    // 32-byte maximum block size; the observer fetches blocks 1.. of every notification with follow-up requests
+    // "notifications larger than one block": the representation is 2500 bytes (more than a datagram takes) served through
+    // coap_add_data_large_response() with a 512-byte maximum block size; the observer fetches blocks 1.. of every notification with follow-up requests
     p["config"] = {{"resources", resj}, {"clients", ncl}, {"big", r.chance(0.15)}};
     json ops = json::array();
     int n = (int)r.range(5, 40);
@@ -256,7 +256,7 @@ struct C11 : Property {
       coap_register_nack_handler(cw.sctx, server_nack);
       coap_register_event_handler(cw.sctx, server_event);
       cw.big = cfg.value("big", false);
-      if (cw.big) { coap_context_set_block_mode(cw.sctx, COAP_BLOCK_USE_LIBCOAP); coap_context_set_max_block_size(cw.sctx, 32); }
+      if (cw.big) { coap_context_set_block_mode(cw.sctx, COAP_BLOCK_USE_LIBCOAP); coap_context_set_max_block_size(cw.sctx, 512); }
       coap_persist_track_funcs(cw.sctx, obs_added_cb, obs_deleted_cb, obs_value_cb, dyn_added_cb, res_deleted_cb, 1, nullptr);
       int i = 0;
       for (auto &jr : cfg["resources"]) {
